@@ -394,11 +394,6 @@ func (ex *Exec) havocElems(base *Term, elem types.Type, lo, hi *Term, hint strin
 			ex.assume(ts.Forall([]*Term{k}, ts.Implies(outside, ts.Eq(ts.Select(fresh, k), ts.Select(oldInner, k)))))
 		}
 		ex.st.heap[r.name] = ts.Store(reg, base, fresh)
-		if !ex.bv && r.lf.kind == "int" {
-			lo2, hi2 := intRange(r.lf.typ)
-			k := ts.Bound("k", ex.idxSort())
-			ex.assume(ts.Forall([]*Term{k}, ts.And(ts.Le(ts.IntLit(lo2), ts.Select(fresh, k), true), ts.Le(ts.Select(fresh, k), ts.IntLit(hi2), true))))
-		}
 	}
 }
 
